@@ -37,6 +37,9 @@ func (c leakCase) String() string {
 	if c.Kind == "limit-reuse" && c.Take == -2 {
 		return fmt.Sprintf("limit installed twice (100, then %d): %d ConcatO searches of %d elements on it, idle %dms in between", c.Max, c.Calls, c.N, c.Variant)
 	}
+	if c.Kind == "limit-reuse" && c.Take == -4 {
+		return fmt.Sprintf("two limits (%d, then %d) installed on one parent context (variant odd: context.Background()); %d ConcatO searches of %d elements under the FIRST one while the second is in use, idle %dms in between", c.Max, c.Max+1, c.Calls, c.N, c.Variant)
+	}
 	if c.Kind == "limit-reuse" && c.Take == -3 {
 		return fmt.Sprintf("limit %d: %d ConcatO searches of %d elements, each on its own child context that is cancelled afterwards, idle %dms in between", c.Max, c.Calls, c.N, c.Variant)
 	}
@@ -240,6 +243,20 @@ func observeLeak(c leakCase) *leakObs {
 			// the limit is installed twice (a default, then the one in force)
 			rctx = gomini.SetMaxRoutines(gomini.SetMaxRoutines(ctx, 100), c.Max)
 		}
+		if c.Take == -4 {
+			// two limits installed on the SAME parent context (also on context.Background()): they are two limiters; the searches run
+			// under the one installed FIRST, while the second is installed and in use by another search
+			parent := context.Context(ctx)
+			if c.Variant%2 == 1 {
+				parent = context.Background()
+			}
+			rctx = gomini.SetMaxRoutines(parent, c.Max)
+			other := gomini.SetMaxRoutines(parent, c.Max+1)
+			go func() {
+				for range gomini.Run(other, gomini.NewState(), burstProgram(3)) {
+				}
+			}()
+		}
 		lim := rctx
 		o.How = "closed"
 	searches:
@@ -433,6 +450,7 @@ func genLeakCases(cfg *Config, prop string) []leakCase {
 		// the same limited context used for several searches, with idle refill periods in between
 		cases = append(cases, leakCase{Kind: "limit-reuse", N: 5, Take: -2, Max: 3, Calls: 2, Variant: 20}, leakCase{Kind: "limit-reuse", N: 5, Take: -3, Max: 1, Calls: 3, Variant: 30},
 			leakCase{Kind: "limit-reuse", N: 6, Take: -1, Max: 1, Calls: 3, Variant: 35},
+			leakCase{Kind: "limit-reuse", N: 6, Take: -4, Max: 1, Calls: 2, Variant: 20}, leakCase{Kind: "limit-reuse", N: 5, Take: -4, Max: 2, Calls: 2, Variant: 31},
 			leakCase{Kind: "limit-reuse", N: 4, Take: -1, Max: 2, Calls: 4, Variant: 25},
 			// limits far ABOVE the search's depth: installing the limit must not take longer than a refill period allows for
 			leakCase{Kind: "limit", N: 3, Take: -1, Max: 3000000, Calls: 1},
@@ -464,7 +482,7 @@ func genLeakCases(cfg *Config, prop string) []leakCase {
 		} else {
 			switch r.Intn(4) {
 			case 0:
-				cases = append(cases, leakCase{Kind: "limit-reuse", N: 2 + r.Intn(6), Take: pick(r, []int{-1, -2, -3}), Max: pick(r, []int{1, 1, 2, 3}), Calls: 2 + r.Intn(3), Variant: 15 + r.Intn(40)})
+				cases = append(cases, leakCase{Kind: "limit-reuse", N: 2 + r.Intn(6), Take: pick(r, []int{-1, -2, -3, -4}), Max: pick(r, []int{1, 1, 2, 3}), Calls: 2 + r.Intn(3), Variant: 15 + r.Intn(40)})
 			case 1:
 				cases = append(cases, leakCase{Kind: "limit-burst", N: 4 + r.Intn(6), Take: -1, Max: pick(r, []int{1, 1, 2, 3}), Calls: 15 + r.Intn(15)})
 			default:
